@@ -906,6 +906,15 @@ class Sim:
         x = self._deref(args[0], path)
         f = args[1]
         R, O = "std::result::Result::<T, E>::", "std::option::Option::<T>::"
+        if p == "core::bool::<impl bool>::then" and isinstance(x, int) and isinstance(f, (Closure, FnItem)):
+            if x == 0:
+                return [cont(Adt("std::option::Option", 0, []))]
+
+            def some_cont(val, p2=path, e2=env):
+                return cont(Adt("std::option::Option", 1, [val]), p2, e2)
+            return self.call_closure(f, [], fn, env, bb, t, path, depth, some_cont)
+        if p == "core::bool::<impl bool>::then_some" and isinstance(x, int):
+            return [cont(Adt("std::option::Option", 1, [f]) if x else Adt("std::option::Option", 0, []))]
         if p == "std::iter::Iterator::find_map" and isinstance(f, (Closure, FnItem)):
             substs = t["callee"].get("substs") or []
             nf = self._local_next(substs[0]) if substs else None
@@ -984,17 +993,20 @@ class Sim:
         rs = c.get("resolved") or ""
         # iteration over a known byte slice / array: `for x in bytes`, `for &x in &[a, b, c]`
         if has("std::iter::IntoIterator::into_iter") and d and isinstance(d[0], Bytes) and \
-                ("slice::iter::<impl std::iter::IntoIterator for &'a [T]>" in rs
-                 or "array::<impl std::iter::IntoIterator for &'a [T; N]>" in rs):
+                ("IntoIterator for &'a [T]>" in rs or "IntoIterator for &'a [T; N]>" in rs):
             return ("value", Adt("sim::SliceIter", 0, [d[0], 0]))
+        if has("std::iter::IntoIterator::into_iter") and d and isinstance(d[0], Bytes) and \
+                "IntoIterator for [T; N]>" in rs:
+            return ("value", Adt("sim::SliceIter", 0, [d[0], 0, "by-value"]))
         if p.endswith("<impl [T]>::iter") and d and isinstance(d[0], Bytes):
             return ("value", Adt("sim::SliceIter", 0, [d[0], 0]))
         if has("std::iter::Iterator::next") and d and isinstance(d[0], Adt) and d[0].adt == "sim::SliceIter":
             it = d[0]
-            seq, i = it.fields
+            seq, i = it.fields[0], it.fields[1]
             if i < len(seq.b):
                 it.fields[1] = i + 1
-                return ("value", Adt("std::option::Option", 1, [Ref([seq.b[i]], 0, ())]))
+                item = seq.b[i] if len(it.fields) > 2 else Ref([seq.b[i]], 0, ())
+                return ("value", Adt("std::option::Option", 1, [item]))
             return ("value", Adt("std::option::Option", 0, []))
         # operators on `&u8` / `u8` operands (`octet >> 6`, `octet & 7`)
         for tr, fnop in (("std::ops::Shr::shr", lambda a, b: a >> b), ("std::ops::Shl::shl", lambda a, b: a << b),
